@@ -11,6 +11,7 @@ def run(ctx):
     D.flw14_nothing_to_delete_is_lost(ctx)
     D.ord4_atomic_store(ctx)
     R.flw15_flush_trigger(ctx)
+    D.lit3_wal_file_names(ctx)
     return ctx.finish(
         'Static analysis of compiler MIR: the flush resets the accounted log size to 0 and '
         'notifies under the ingestion lock; every file of a merged-away partition and the frozen '
